@@ -68,6 +68,16 @@ def gen(rng, tier):
         m = mutate_text(rng, text)
         if valid_utf8(m):
             out.append(parse_case(sch, m, rng.choice([128, "default"])))
+    # wildcard literals whose source text mixes string escapes with multi-byte characters and ends in
+    # something the pattern syntax rejects: where the error points must be a place of the SOURCE text
+    units = ['\\"', "\\\\", "\\x2a", "\\x5c", "\\052", "*", "**", "a", "?", "\u00e9", "\u20ac", "\U0001d11e", "[", "]",
+             "(", "{", "+"]
+    for _ in range(n // 5):
+        body = "".join(rng.choice(units) for _ in range(rng.randrange(1, 9)))
+        op = rng.choice(["wildcard", "strict wildcard"])      # (regex bodies: only the modelled subset, see C11)
+        lit = rng.choice(['"%s"', '"%s"', 'r"%s"', 'r#"%s"#']) % body
+        pre = rng.choice(["", "", "tt and ", "(", "not "])
+        out.append(parse_case(sch, pre + "str " + op + " " + lit, rng.choice(["default", 128])))
     # counters near the limits of narrow integer types: runs of 254..300 `#` around raw strings, 255..257 nested
     # indexes / escapes / list items, very long identifiers
     for k in (254, 255, 256, 257, 300, 511, 512):
